@@ -393,6 +393,17 @@ class SimulationAlgorithm(BaseSimulationAlgorithm):
             columns=columns,
         ).T
 
+        if model.source_dimension == 0:
+            # model without sources: no space shifts
+            space_shifts = pd.DataFrame(
+                0.0,
+                columns=[f"w_{i}" for i in range(len(self.features))],
+                index=individual_parameters_from_model_parameters.index,
+            )
+            return pd.concat(
+                [individual_parameters_from_model_parameters, space_shifts], axis=1
+            )
+
         # Generate the source tensors
         for i in range(model.source_dimension):
             individual_parameters_from_model_parameters[f"sources_{i}"] = torch.tensor(
